@@ -58,6 +58,15 @@ int poll_set_new_evt(poll_priv_t *priv, ev_src_t *tmp, const enum op_type flag) 
 
     /* Eventually free epoll data if needed */
     if (flag == RM) {
+        /*
+         * The source may be removed (and freed) by a callback while a batch of events is being
+         * processed: drop its not-yet-processed events from the batch, they carry its address.
+         */
+        for (int i = 0; ep->pevents && i < priv->max_events; i++) {
+            if (ep->pevents[i].data.ptr == tmp) {
+                ep->pevents[i].data.ptr = NULL;
+            }
+        }
         memhook._free(tmp->ev);
         tmp->ev = NULL;
         
